@@ -41,6 +41,32 @@ def module_bytes_consts(P):
     return {k: v for k, v in env.items() if isinstance(v, (bytes, int))}
 
 
+def eat_data_roles(P):
+    """local names of BodyMarkuper._eat_data by role: copies of self.trest / self.trest_len / self.tlen, the window start, the chunk tail"""
+    f = P.func(f'{MP}:BodyMarkuper._eat_data')
+    roles = {}
+    for st in walk_shallow(f.node):
+        if isinstance(st, ast.Assign):
+            t, v = st.targets[0], st.value
+            pairs = []
+            if isinstance(t, ast.Tuple) and isinstance(v, ast.Tuple) and len(t.elts) == len(v.elts):
+                pairs = list(zip(t.elts, v.elts))
+            elif isinstance(t, ast.Name):
+                pairs = [(t, v)]
+            for (tt, vv) in pairs:
+                if isinstance(tt, ast.Name) and isinstance(vv, ast.Attribute) and dotted(vv) in ('self.trest', 'self.trest_len', 'self.tlen', 'self.token'):
+                    roles.setdefault(vv.attr, tt.id)
+                if isinstance(tt, ast.Name) and isinstance(vv, ast.Name) and vv.id == f.params[2] and not T.loops_of(st):
+                    roles.setdefault('start', tt.id)
+                if isinstance(tt, ast.Name) and isinstance(vv, ast.Subscript) and isinstance(vv.slice, ast.Slice) and vv.slice.upper is None \
+                        and isinstance(vv.value, ast.Name) and vv.value.id == f.params[1] and T.loops_of(st):
+                    roles.setdefault('part', tt.id)
+    for need in ('trest', 'trest_len', 'tlen', 'start', 'part'):
+        if need not in roles:
+            raise AnalysisError(f'_eat_data: cannot identify `{need}` by role')
+    return roles
+
+
 def check_eat_data_resets(P, R, rid):
     """every exit of _eat_data that found a delimiter resets the carried remainder; the normal end writes it back"""
     f = P.func(f'{MP}:BodyMarkuper._eat_data')
@@ -81,7 +107,8 @@ def check_eat_data_resets(P, R, rid):
         v = wb[0].ast.value
         order = [dotted(e) for e in wb[0].ast.targets[0].elts]
         vals = [src(e) for e in v.elts] if isinstance(v, ast.Tuple) else []
-        ok = vals == [o.split('.')[1] for o in order]
+        er_ = eat_data_roles(P)
+        ok = vals == [er_[o.split('.')[1]] for o in order]
         fall = [p for (p, lab) in g.exit.pred if not (p.kind == 'stmt' and isinstance(p.ast, ast.Return))]
         ok = ok and all(p in wb for p in fall) and bool(fall)
     R.ob(rid, f, wb[0].ast if wb else f.node, ok, text='normal end stores (trest_len, trest) back on the scanner', detail='' if ok else
@@ -187,9 +214,9 @@ def check(P, R):
     for n in g.nodes:
         for d in rd.gen.get(n, []):
             if d.kind == 'assign' and isinstance(d.value, ast.Attribute) and isinstance(d.value.value, ast.Name) and d.value.value.id == 'self' \
-                    and d.value.attr == d.name and not T.loops_of(d.stmt):
+                    and d.value.attr in ('cur_meth', 'abs_start_section') and not T.loops_of(d.stmt):
                 state[d.name] = d.value.attr
-    R.require({'cur_meth', 'abs_start_section'} <= set(state), f'iter_markup: state locals not found ({state})')
+    R.require({'cur_meth', 'abs_start_section'} <= set(state.values()), f'iter_markup: state locals not found ({state})')
     # resumable exit = normal fall-through end (not the return after the stop signal, not raises)
     fall = [p for (p, lab) in g.exit.pred if not (p.kind == 'stmt' and isinstance(p.ast, ast.Return))]
     R.require(fall, 'iter_markup: no normal end')
@@ -214,7 +241,7 @@ def check(P, R):
     for y in T.yield_nodes(g):
         yv = [x for x in walk_shallow(y.ast) if isinstance(x, ast.Yield)][0].value
         ok = isinstance(yv, ast.Tuple) and len(yv.elts) == 2 and isinstance(yv.elts[1], ast.Tuple) and len(yv.elts[1].elts) == 2 \
-            and src(yv.elts[1].elts[0]) == 'abs_start_section' and 'self.abspos' in src(yv.elts[1].elts[1])
+            and state.get(src(yv.elts[1].elts[0])) == 'abs_start_section' and 'self.abspos' in src(yv.elts[1].elts[1])
         R.ob('C06.c', im, y.ast, ok, text='yield name, (abs_start_section, self.abspos + end_section)', detail='' if ok else
              'section offsets are not absolute offsets into the buffered body')
     check_eat_data_resets(P, R, 'C06.c')
@@ -258,8 +285,15 @@ def check(P, R):
                         v = d.value
                         if isinstance(v, ast.Call):
                             callee = call_attr(v)
-                            if callee in sentinel_funcs or callee in ('cur_meth', 'eat_meth'):
+                            target = (T.resolved_callee(m, v) or '').split('.')[-1]
+                            if callee in sentinel_funcs or target in sentinel_funcs or target in ('cur_meth', 'eat_meth') or callee in ('eat_meth',):
                                 from_sentinel = True
+                            elif isinstance(v.func, ast.Name) and rd2.is_local(v.func.id):
+                                for n3 in g2.nodes:
+                                    for d3 in rd2.gen.get(n3, []):
+                                        if d3.name == v.func.id and d3.value is not None and isinstance(d3.value, ast.Attribute) \
+                                                and (d3.value.attr in sentinel_funcs or d3.value.attr in ('cur_meth', 'eat_meth', '_eat_headers')):
+                                            from_sentinel = True
                     if from_sentinel:
                         n_tests += 1
                         ok = how == 'identity'
@@ -267,11 +301,12 @@ def check(P, R):
                              f'the result of a position-returning eater is tested by {how}: position 0 (or a negative offset at the very '
                              f'start of a chunk) is taken for "need more data"',
                              why='whether a delimiter starts exactly at a chunk boundary must not matter')
-    R.require(n_tests >= 5, f'{n_tests} sentinel tests found (5 on the pinned tree)')
+    R.require(n_tests >= 4, f'{n_tests} sentinel tests found (5 on the pinned tree)')
 
     # ---- e
     ed = P.func(f'{MP}:BodyMarkuper._eat_data')
     g, rd = ed.cfg, ed.rd
+    er = eat_data_roles(P)
     mts = [n for n in g.nodes if n.kind == 'stmt' and any(isinstance(x, ast.Call) and call_attr(x) == 'match_tail' for x in walk_shallow(n.ast))]
     R.require(len(mts) == 2, f'_eat_data: {len(mts)} match_tail calls (2 on the pinned tree)')
     loops = [n for n in walk_shallow(ed.node) if isinstance(n, ast.While)]
@@ -280,9 +315,9 @@ def check(P, R):
     tail = [n for n in mts if n not in in_loop]
     # refutation sites: local `trest_len = trest = None`
     refs = [n for n in g.nodes if n.kind == 'stmt' and isinstance(n.ast, ast.Assign) and is_const(n.ast.value, None)
-            and {dotted(t) for t in n.ast.targets} == {'trest_len', 'trest'}]
+            and {dotted(t) for t in n.ast.targets} == {er['trest_len'], er['trest']}]
     R.require(len(refs) >= 3, f'_eat_data: {len(refs)} refutation sites (3 on the pinned tree)')
-    adv = [g.node_of_stmt(x)[0] for x in walk_shallow(lp) if isinstance(x, ast.AugAssign) and dotted(x.target) == 'start']
+    adv = [g.node_of_stmt(x)[0] for x in walk_shallow(lp) if isinstance(x, ast.AugAssign) and dotted(x.target) == er['start']]
     for i, rf in enumerate(refs):
         if T._inside(rf.ast, lp.body):
             ok = bool(in_loop) and all(g.must_pass(rf, a, in_loop) for a in adv)
@@ -293,7 +328,7 @@ def check(P, R):
         else:
             # tail block: after refutation the tail must still be submitted to match_tail: no `part = None` on the way and the call reached
             nulls = [n for n in g.nodes if n.kind == 'stmt' and isinstance(n.ast, ast.Assign) and is_const(n.ast.value, None)
-                     and any(dotted(t) == 'part' for t in n.ast.targets)]
+                     and any(dotted(t) == er['part'] for t in n.ast.targets)]
             on_path = [n for n in nulls if g.can_reach(rf, n) and tail and g.can_reach(n, tail[0])]
             reach_tail = bool(tail) and g.can_reach(rf, tail[0])
             # refutation of a remainder *longer or equal* than the tail leaves nothing to scan only if the tail was compared whole
@@ -309,7 +344,7 @@ def check(P, R):
         if res:
             nm = res[0]
             ok = any(isinstance(m.ast, ast.Assign) and isinstance(m.ast.value, ast.Tuple) and nm in names_loaded(m.ast.value)
-                     and {dotted(e) for t in m.ast.targets for e in (t.elts if isinstance(t, ast.Tuple) else [t])} == {'trest_len', 'trest'}
+                     and {dotted(e) for t in m.ast.targets for e in (t.elts if isinstance(t, ast.Tuple) else [t])} == {er['trest_len'], er['trest']}
                      for m in g.nodes if m.kind == 'stmt' and m.ast is not None)
     R.ob('C06.e', ed, tail[0].ast if tail else ed.node, ok, text='a matching tail becomes the remainder expected in the next chunk', detail='' if ok else
          'the part of the delimiter seen at the end of the chunk is not remembered')
@@ -320,7 +355,7 @@ def check(P, R):
     rel = set()
     for n in gi.nodes:
         for d in rdi.gen.get(n, []):
-            if d.kind == 'assign' and isinstance(d.value, ast.Call) and call_attr(d.value) in ('cur_meth',):
+            if d.kind == 'assign' and isinstance(d.value, ast.Call) and isinstance(d.value.func, ast.Name) and state.get(d.value.func.id) == 'cur_meth':
                 rel.add(d.name)
     R.require(rel, 'iter_markup: result of the section eater not found')
     n_h = 0
